@@ -305,6 +305,9 @@ type c20script struct {
 	// blindEnd: once the reference says the iterator is exhausted the consumer calls Next straight away, without a
 	// HasNext that could observe the exhaustion first (a caller that knows the size and pulls once too often)
 	blindEnd bool
+	// gcBefore >= 0: injected fault - a full garbage collection, finalizers included, runs right before this call of
+	// the consumer (the pull-based iterators of the library carry a finalizer that stops their coroutine)
+	gcBefore int
 }
 
 func c20Script(r *sim.Run, maxDemand int) c20script {
@@ -318,6 +321,10 @@ func c20Script(r *sim.Run, maxDemand int) c20script {
 		}))
 	}
 	s.blindEnd = r.Bool(1, 3, "blindEnd")
+	s.gcBefore = -1
+	if r.Bool(1, 8, "gcFault") {
+		s.gcBefore = r.Choose(2*maxDemand+3, "gcBefore")
+	}
 	return s
 }
 
@@ -337,6 +344,10 @@ func (c *c20side) consume(r *sim.Run, t *sim.Task, onCall func()) {
 	call := func(f func()) (panicked any) {
 		t.Yield("call")
 		onCall()
+		if c.calls == c.sc.gcBefore {
+			r.Fault("gc-cycle-with-finalizers")
+			sim.GCNow()
+		}
 		c.calls++
 		defer func() {
 			panicked = recover()
@@ -737,8 +748,14 @@ func c20Unordered(r *sim.Run) {
 	r.Logf("unordered: %s keys %v script %v", desc, ks, sc)
 	r.Go("consumer", func(t *sim.Task) {
 		var got []int
+		ncalls := 0
 		call := func(f func()) (p any) {
 			t.Yield("call")
+			if ncalls == sc.gcBefore {
+				r.Fault("gc-cycle-with-finalizers")
+				sim.GCNow()
+			}
+			ncalls++
 			defer func() { p = recover() }()
 			f()
 			return nil
